@@ -19,6 +19,9 @@ import (
 	"bytes"
 	"encoding/json"
 	"fmt"
+	"go/ast"
+	"go/parser"
+	"go/token"
 	"math/rand"
 	"os"
 	"path"
@@ -117,7 +120,6 @@ type vSch struct {
 	Val   *vSch
 	Fld   []*vField // kStruct, sorted by codec name
 	Ref   *vNamed
-	Conv  bool // named base type inlined (msgp "Convert"): complexity 2
 	T     reflect.Type
 }
 
@@ -142,8 +144,9 @@ type vNamed struct {
 type vWalker struct {
 	named   map[reflect.Type]*vNamed
 	order   []*vNamed
-	cplx    map[reflect.Type]int
-	cbusy   map[reflect.Type]bool
+	calls   map[reflect.Type]map[reflect.Type]bool
+	byName  map[string]reflect.Type
+	seenT   map[reflect.Type]bool
 	boundOf func(pkg, expr string) (int64, error)
 	dirOf   func(pkg, typ string) (string, bool)
 	errs    []string
@@ -180,60 +183,231 @@ func (w *vWalker) ref(t reflect.Type) *vNamed {
 		return n
 	}
 	n.busy = true
-	n.Body = w.structural(t, t.PkgPath(), t, "", "")
+	n.Body = w.structural(t, t, "", "")
 	n.busy = false
 	return n
 }
 
-// msgp's inlining measure (gen/elem.go Complexity) on the expanded tree
-func vComplexity(s *vSch) int {
-	switch s.K {
-	case kUint, kInt, kBool, kBytes, kString:
-		if s.Conv {
-			return 2
+// Which named types does the generated UnmarshalMsgWithState of `owner` CALL (one unit of
+// AllowableDepth each), and which did the msgp generator inline?  The generator's inlining pass
+// (parse/inline.go: same package, complexity, processing order) is not re-implemented; instead the
+// receivers of the `.UnmarshalMsgWithState(bts, st)` calls in the generated function are read from
+// <pkg>/msgp_gen.go (go/parser) and typed by reflection.  Every run validates the result: the
+// harness measures the least accepted AllowableDepth of every instance against the model's [need].
+type vGenFile struct {
+	funcs map[string]*ast.FuncDecl // receiver type name -> UnmarshalMsgWithState
+}
+
+var vGenFiles = map[string]*vGenFile{}
+
+func vModuleRoot() string {
+	dir, _ := os.Getwd()
+	for {
+		if _, err := os.Stat(filepath.Join(dir, "go.mod")); err == nil {
+			return dir
 		}
-		return 1
-	case kFixBytes:
-		return 2
-	case kArray, kSlice, kPtr:
-		return 1 + vComplexity(s.Elem)
-	case kMap:
-		return 2 + vComplexity(s.Val)
-	case kStruct:
-		c := 1
-		for _, f := range s.Fld {
-			c += vComplexity(f.S)
+		parent := filepath.Dir(dir)
+		if parent == dir {
+			return ""
 		}
-		return c
-	default:
-		return 1
+		dir = parent
 	}
 }
 
-func (w *vWalker) complexity(t reflect.Type) int {
-	if c, ok := w.cplx[t]; ok {
+const vModulePath = "github.com/algorand/go-algorand"
+
+func vGenFileOf(pkg string) *vGenFile {
+	if g, ok := vGenFiles[pkg]; ok {
+		return g
+	}
+	g := &vGenFile{funcs: map[string]*ast.FuncDecl{}}
+	vGenFiles[pkg] = g
+	rel, ok := strings.CutPrefix(pkg, vModulePath+"/")
+	if !ok {
+		return g
+	}
+	f, err := parser.ParseFile(token.NewFileSet(), filepath.Join(vModuleRoot(), filepath.FromSlash(rel), "msgp_gen.go"), nil, 0)
+	if err != nil {
+		return g
+	}
+	for _, d := range f.Decls {
+		fd, ok := d.(*ast.FuncDecl)
+		if !ok || fd.Name.Name != "UnmarshalMsgWithState" || fd.Recv == nil || len(fd.Recv.List) != 1 {
+			continue
+		}
+		if st, ok := fd.Recv.List[0].Type.(*ast.StarExpr); ok {
+			if id, ok := st.X.(*ast.Ident); ok {
+				g.funcs[id.Name] = fd
+			}
+		}
+	}
+	return g
+}
+
+// all named types structurally reachable from t (for resolving type names in declarations)
+func (w *vWalker) collectNames(t reflect.Type) {
+	if w.seenT[t] {
+		return
+	}
+	w.seenT[t] = true
+	if t.Name() != "" && t.PkgPath() != "" {
+		w.byName[t.PkgPath()+"."+t.Name()] = t
+	}
+	switch t.Kind() {
+	case reflect.Slice, reflect.Array, reflect.Ptr:
+		w.collectNames(t.Elem())
+	case reflect.Map:
+		w.collectNames(t.Key())
+		w.collectNames(t.Elem())
+	case reflect.Struct:
+		for i := 0; i < t.NumField(); i++ {
+			w.collectNames(t.Field(i).Type)
+		}
+	}
+}
+
+var vBasic = map[string]reflect.Type{
+	"uint8": reflect.TypeOf(uint8(0)), "byte": reflect.TypeOf(uint8(0)), "uint16": reflect.TypeOf(uint16(0)),
+	"uint32": reflect.TypeOf(uint32(0)), "uint64": reflect.TypeOf(uint64(0)), "uint": reflect.TypeOf(uint(0)),
+	"int8": reflect.TypeOf(int8(0)), "int16": reflect.TypeOf(int16(0)), "int32": reflect.TypeOf(int32(0)),
+	"int64": reflect.TypeOf(int64(0)), "int": reflect.TypeOf(int(0)), "bool": reflect.TypeOf(false),
+	"string": reflect.TypeOf(""),
+}
+
+// type expression of a `var zbNNNN T` declaration inside package pkg -> reflect.Type
+func (w *vWalker) typeOfExpr(e ast.Expr, pkg string, imports map[string]string) reflect.Type {
+	switch x := e.(type) {
+	case *ast.Ident:
+		if t, ok := vBasic[x.Name]; ok {
+			return t
+		}
+		return w.byName[pkg+"."+x.Name]
+	case *ast.SelectorExpr:
+		if q, ok := x.X.(*ast.Ident); ok {
+			for full, t := range w.byName {
+				if strings.HasSuffix(full, "/"+q.Name+"."+x.Sel.Name) || full == q.Name+"."+x.Sel.Name {
+					return t
+				}
+			}
+		}
+	case *ast.StarExpr:
+		if t := w.typeOfExpr(x.X, pkg, imports); t != nil {
+			return reflect.PointerTo(t)
+		}
+	case *ast.ArrayType:
+		el := w.typeOfExpr(x.Elt, pkg, imports)
+		if el == nil {
+			return nil
+		}
+		if x.Len == nil {
+			return reflect.SliceOf(el)
+		}
+		if lit, ok := x.Len.(*ast.BasicLit); ok {
+			if n, err := strconv.Atoi(lit.Value); err == nil {
+				return reflect.ArrayOf(n, el)
+			}
+		}
+	case *ast.MapType:
+		k, v := w.typeOfExpr(x.Key, pkg, imports), w.typeOfExpr(x.Value, pkg, imports)
+		if k != nil && v != nil {
+			return reflect.MapOf(k, v)
+		}
+	}
+	return nil
+}
+
+func (w *vWalker) called(owner reflect.Type) map[reflect.Type]bool {
+	if c, ok := w.calls[owner]; ok {
 		return c
 	}
-	if w.cbusy[t] {
-		return 1 << 20
+	c := map[reflect.Type]bool{}
+	w.calls[owner] = c
+	fd := vGenFileOf(owner.PkgPath()).funcs[owner.Name()]
+	if fd == nil {
+		if owner != vMicroAlgosT {
+			w.errf("no generated UnmarshalMsgWithState found for %s", owner)
+		}
+		return c
 	}
-	w.cbusy[t] = true
-	// a private walker so that probing does not register called types
-	p := &vWalker{named: map[reflect.Type]*vNamed{}, cplx: w.cplx, cbusy: w.cbusy, boundOf: func(string, string) (int64, error) { return 0, nil },
-		dirOf: w.dirOf, used: map[string]int64{}}
-	for k, v := range w.named {
-		p.named[k] = v
+	vars := map[string]ast.Expr{}
+	ast.Inspect(fd.Body, func(n ast.Node) bool {
+		if ds, ok := n.(*ast.DeclStmt); ok {
+			if gd, ok := ds.Decl.(*ast.GenDecl); ok {
+				for _, sp := range gd.Specs {
+					if vs, ok := sp.(*ast.ValueSpec); ok && vs.Type != nil {
+						for _, nm := range vs.Names {
+							vars[nm.Name] = vs.Type
+						}
+					}
+				}
+			}
+		}
+		return true
+	})
+	var resolve func(e ast.Expr) reflect.Type
+	resolve = func(e ast.Expr) reflect.Type {
+		switch x := e.(type) {
+		case *ast.ParenExpr:
+			return resolve(x.X)
+		case *ast.StarExpr:
+			t := resolve(x.X)
+			if t != nil && t.Kind() == reflect.Ptr {
+				return t.Elem()
+			}
+			return t
+		case *ast.Ident:
+			if x.Name == "z" {
+				return reflect.PointerTo(owner)
+			}
+			if te, ok := vars[x.Name]; ok {
+				return w.typeOfExpr(te, owner.PkgPath(), nil)
+			}
+		case *ast.SelectorExpr:
+			t := resolve(x.X)
+			for t != nil && t.Kind() == reflect.Ptr {
+				t = t.Elem()
+			}
+			if t != nil && t.Kind() == reflect.Struct {
+				if f, ok := t.FieldByName(x.Sel.Name); ok {
+					return f.Type
+				}
+			}
+		case *ast.IndexExpr:
+			t := resolve(x.X)
+			for t != nil && t.Kind() == reflect.Ptr {
+				t = t.Elem()
+			}
+			if t != nil && (t.Kind() == reflect.Slice || t.Kind() == reflect.Array || t.Kind() == reflect.Map) {
+				return t.Elem()
+			}
+		}
+		return nil
 	}
-	c := vComplexity(p.structural(t, t.PkgPath(), t, "", ""))
-	delete(w.cbusy, t)
-	w.cplx[t] = c
+	ast.Inspect(fd.Body, func(n ast.Node) bool {
+		ce, ok := n.(*ast.CallExpr)
+		if !ok {
+			return true
+		}
+		sel, ok := ce.Fun.(*ast.SelectorExpr)
+		if !ok || sel.Sel.Name != "UnmarshalMsgWithState" {
+			return true
+		}
+		t := resolve(sel.X)
+		for t != nil && t.Kind() == reflect.Ptr {
+			t = t.Elem()
+		}
+		if t == nil {
+			w.errf("cannot type the receiver of a call in %s.UnmarshalMsgWithState", owner)
+			return true
+		}
+		c[t] = true
+		return true
+	})
 	return c
 }
 
-const vMaxComplex = 5
-
-// occurrence of type t inside the generated method of a type of package P (root = that type)
-func (w *vWalker) expand(t reflect.Type, P string, root reflect.Type, tagBound, tagPkg string) *vSch {
+// occurrence of type t inside the generated method of the named type `owner`
+func (w *vWalker) expand(t reflect.Type, owner reflect.Type, tagBound, tagPkg string) *vSch {
 	if t == vRawT {
 		w.errf("msgp.Raw (untyped msgpack passthrough) is outside the schema language")
 		return &vSch{K: kBool, T: t}
@@ -242,17 +416,15 @@ func (w *vWalker) expand(t reflect.Type, P string, root reflect.Type, tagBound, 
 		return &vSch{K: kRef, Ref: w.ref(t), T: t}
 	}
 	if vHasMethods(t) {
-		if t.PkgPath() == P && t != root && w.complexity(t) < vMaxComplex {
-			s := w.structural(t, P, t, tagBound, tagPkg)
-			switch s.K {
-			case kUint, kInt, kBool, kBytes, kString:
-				s.Conv = true
-			}
-			return s
+		if w.called(owner)[t] {
+			return &vSch{K: kRef, Ref: w.ref(t), T: t}
 		}
-		return &vSch{K: kRef, Ref: w.ref(t), T: t}
+		if t.PkgPath() != owner.PkgPath() {
+			w.errf("%s (other package) is not called from %s.UnmarshalMsgWithState", t, owner)
+		}
+		return w.structural(t, owner, tagBound, tagPkg) // inlined by the generator
 	}
-	return w.structural(t, P, root, tagBound, tagPkg)
+	return w.structural(t, owner, tagBound, tagPkg)
 }
 
 func (w *vWalker) bound(t reflect.Type, tagBound, tagPkg string) (this int64, rest string, restPkg string) {
@@ -284,7 +456,7 @@ func (w *vWalker) bound(t reflect.Type, tagBound, tagPkg string) (this int64, re
 	return v, rest, restPkg
 }
 
-func (w *vWalker) structural(t reflect.Type, P string, root reflect.Type, tagBound, tagPkg string) *vSch {
+func (w *vWalker) structural(t reflect.Type, owner reflect.Type, tagBound, tagPkg string) *vSch {
 	s := &vSch{T: t, Bound: -1}
 	switch t.Kind() {
 	case reflect.Uint8, reflect.Uint16, reflect.Uint32, reflect.Uint64, reflect.Uint:
@@ -318,7 +490,7 @@ func (w *vWalker) structural(t reflect.Type, P string, root reflect.Type, tagBou
 			s.K = kBytes
 		} else {
 			s.K = kSlice
-			s.Elem = w.expand(t.Elem(), P, root, rest, restPkg)
+			s.Elem = w.expand(t.Elem(), owner, rest, restPkg)
 		}
 	case reflect.Array:
 		s.N = t.Len()
@@ -326,16 +498,16 @@ func (w *vWalker) structural(t reflect.Type, P string, root reflect.Type, tagBou
 			s.K = kFixBytes
 		} else {
 			s.K = kArray
-			s.Elem = w.expand(t.Elem(), P, root, "", "")
+			s.Elem = w.expand(t.Elem(), owner, "", "")
 		}
 	case reflect.Map:
 		s.K = kMap
 		s.Bound, _, _ = w.bound(t, tagBound, tagPkg)
-		s.Key = w.expand(t.Key(), P, root, "", "")
-		s.Val = w.expand(t.Elem(), P, root, "", "")
+		s.Key = w.expand(t.Key(), owner, "", "")
+		s.Val = w.expand(t.Elem(), owner, "", "")
 	case reflect.Ptr:
 		s.K = kPtr
-		s.Elem = w.expand(t.Elem(), P, root, "", "")
+		s.Elem = w.expand(t.Elem(), owner, "", "")
 	case reflect.Struct:
 		s.K = kStruct
 		var decl []*vField
@@ -345,7 +517,7 @@ func (w *vWalker) structural(t reflect.Type, P string, root reflect.Type, tagBou
 		if !has {
 			w.errf("struct %s has no _struct codec annotation", t)
 		}
-		w.fields(t, P, root, nil, sopts, &decl)
+		w.fields(t, owner, nil, sopts, &decl)
 		for i, f := range decl {
 			f.Decl = i
 		}
@@ -397,7 +569,7 @@ func vStructOpts(t reflect.Type) (opts []string, has bool) {
 	return
 }
 
-func (w *vWalker) fields(t reflect.Type, P string, root reflect.Type, prefix []int, sopts []string, out *[]*vField) {
+func (w *vWalker) fields(t reflect.Type, owner reflect.Type, prefix []int, sopts []string, out *[]*vField) {
 	for i := 0; i < t.NumField(); i++ {
 		f := t.Field(i)
 		if f.Name == "_struct" {
@@ -410,7 +582,7 @@ func (w *vWalker) fields(t reflect.Type, P string, root reflect.Type, prefix []i
 		idx := append(append([]int(nil), prefix...), i)
 		if f.Anonymous && name == "" {
 			if f.Type.Kind() == reflect.Struct && !(f.Type == vMicroAlgosT) {
-				w.fields(f.Type, P, root, idx, sopts, out)
+				w.fields(f.Type, owner, idx, sopts, out)
 				continue
 			}
 			w.errf("unsupported embedded field %s in %s", f.Name, t)
@@ -428,7 +600,7 @@ func (w *vWalker) fields(t reflect.Type, P string, root reflect.Type, prefix []i
 				ab = strings.TrimPrefix(o, "allocbound=")
 			}
 		}
-		fs := w.expand(f.Type, P, root, ab, t.PkgPath())
+		fs := w.expand(f.Type, owner, ab, t.PkgPath())
 		oeTag := "omitempty"
 		if fs.K == kArray || fs.K == kFixBytes {
 			oeTag = "omitemptyarray"
@@ -439,8 +611,13 @@ func (w *vWalker) fields(t reflect.Type, P string, root reflect.Type, prefix []i
 }
 
 func vNewWalker(boundOf func(pkg, expr string) (int64, error), dirOf func(pkg, typ string) (string, bool)) *vWalker {
-	return &vWalker{named: map[reflect.Type]*vNamed{}, cplx: map[reflect.Type]int{}, cbusy: map[reflect.Type]bool{},
+	w := &vWalker{named: map[reflect.Type]*vNamed{}, calls: map[reflect.Type]map[reflect.Type]bool{},
+		byName: map[string]reflect.Type{}, seenT: map[reflect.Type]bool{},
 		boundOf: boundOf, dirOf: dirOf, used: map[string]int64{}}
+	for _, r := range vRoots() {
+		w.collectNames(reflect.TypeOf(r).Elem())
+	}
+	return w
 }
 
 // ------------------------------------------------------------------------------------------
